@@ -54,6 +54,9 @@ CHECKS = {
     "C03": dict(level="exploration", technique=DIFF + " run on unique names (environments are the specification of lexical scoping) while the source is printed with colliding spellings; output trace through a recording writer; fixed accept/reject probes for forward-declaration gating",
                 text="held on the executions observed: generated programs with functions and lambdas nested up to 7 levels, captures at every ancestor distance up to 7, shadowing and same-scope redefinition of let / parameter / function names before and after closures are created, closures returned, stored in structs, sequences and optionals, passed through map/filter/reduce/sort/partial and called several times, self recursion, recursion through a captured lambda, mutual recursion through forward declarations, defaults with display evaluated at function creation, look-alike identifiers (item1/item01/Item1/item1x, keyword prefixes, 250-character names) agree binding by binding and output line by output line with the reference evaluator; 36 probes show that a function needing an unimplemented forward declaration can be neither called, taken as a value nor wrapped in a lambda before the implementation",
                 note="trusts xrv/corelang.py; functions of one name are not re-declared in a visible scope (overloading is C05); recursive functions are called with 0..3 only; lambda defaults are pure"),
+    "C10": dict(level="exploration", technique="runtime monitoring: return-event monitor (watchdog + address-space cap around every evaluation in a child process, kills confirmed by a solo re-run with 3x the budget) over hostile workloads; time clause: timestamped trace of user-function body starts through the recording writer",
+                text="held on the executions observed (bounded restatement of the liveness claim): under search <= 500, call <= 2000, recursion <= 1000, size <= 4 MiB every evaluation of generated generator pipelines over infinite / 10^15-element sources (21 adaptor kinds, 30 consumers), sequence consumers on infinite and huge sequences, ~100 numeric templates with adversarial arguments and type-directed calls of every standard-library overload with huge ints, infinite sequences and degenerate callbacks returned (value, error or violation) within the budget; for 8 loop shapes under a time limit every user-function body (marked by a timestamped display) started no later than the deadline + 250 ms and the outcome was Timeout",
+                note="a hang is the absence of an event: what is decided is 'returned within 8 s (quick) / 20 s (thorough), 3x that when re-run alone, and 6 GiB'; finite work above that bound is reported, unbounded work below it is invisible; the recursion limit is configured together with the search and call limits"),
 }
 REASON_PENDING = "check under construction in this round (not yet claimed)"
 
